@@ -143,6 +143,8 @@ class Agent:
         self.time_override = None
         self.boots_override = None
         self.v3_response_hook = None
+        self.msg_max_size = 65507          # msgMaxSize the agent announces: what IT can receive - not a bound on what it sends
+        self.partial_first = False         # TRUE: cut() may leave less than one full repetition in a GETBULK response
         self.honour_reportable = False     # TRUE: requests without the reportable flag that would earn a Report are dropped (raise Dropped)
         self.force_report = None           # name of a usmStats counter: the next non-discovery request is answered with that Report
         self.report_ctx_engine = None      # contextEngineID of Reports (default: the engine id; proxies / multi-context agents differ, it may be empty)
@@ -221,7 +223,10 @@ class Agent:
             if self.cut is not None and cur:
                 n = len(cur)
                 keep = self.cut(self.nbulk, n, len(rep))
-                keep = max(min(n, len(rep)), min(keep, len(rep)))
+                # at least one full repetition - unless the scenario asks for a response cut inside its first repetition
+                # (RFC 3416 4.2.3 lets the agent drop any number of bindings from the end; at least one must remain)
+                floor = 1 if self.partial_first else min(n, len(rep))
+                keep = max(floor, min(keep, len(rep)))
                 rep = rep[:keep]
             return 0, 0, out + rep
         return 5, 0, []
@@ -359,12 +364,12 @@ class Agent:
                 scoped = scoped + b"\0" * (-len(scoped) % 8)
             payload = enc_str(stream(u.kpriv(engine), salt, scoped))
         if flags & 1:
-            m0 = build_v3(msgid, 65507, flags, engine, boots, time, uname, b"\0" * 12, salt, payload, self.forms)
+            m0 = build_v3(msgid, self.msg_max_size, flags, engine, boots, time, uname, b"\0" * 12, salt, payload, self.forms)
             mac = hmac96(HNAME[u.auth[0]], u.kauth(engine), m0)
-            m1 = build_v3(msgid, 65507, flags, engine, boots, time, uname, mac, salt, payload, self.forms)
+            m1 = build_v3(msgid, self.msg_max_size, flags, engine, boots, time, uname, mac, salt, payload, self.forms)
             assert len(m0) == len(m1)
             return m1
-        return build_v3(msgid, 65507, flags, engine, boots, time, uname, b"", salt, payload, self.forms)
+        return build_v3(msgid, self.msg_max_size, flags, engine, boots, time, uname, b"", salt, payload, self.forms)
 
     def report(self, req, counter, u, msgid, reqid) -> bytes:
         if self.honour_reportable and not (req.get("flags", 4) & 4):
